@@ -96,6 +96,10 @@ fn main() {
         (BarKind::Mem64 { size: GOOD_BAR_SIZE, prefetch: true }, GOOD_BAR_ADDR + 0x1_0000_0000),
         (BarKind::Mem32 { size: 0x4000, prefetch: false, below_1m: false }, 0xfe00_0000),
         (BarKind::Mem64 { size: 1 << 33, prefetch: false }, 0x10_0000_0000),
+        // Exactly 4 GiB: the only power-of-two size a 32-bit offset+length can exceed by carrying
+        // into bit 32.
+        (BarKind::Mem64 { size: 1 << 32, prefetch: false }, 0x20_0000_0000),
+        (BarKind::Mem64 { size: 1 << 31, prefetch: false }, 0x30_0000_0000),
         (BarKind::Mem64 { size: 1 << 63, prefetch: false }, 1 << 63),
         (BarKind::Mem64 { size: GOOD_BAR_SIZE, prefetch: true }, 0),
         (BarKind::Io { size: 0x100 }, 0xc000),
